@@ -186,18 +186,24 @@ def make_random_module(th, H):
             vc.libcall('RandomState', dict(obj=o, const=c, seed=sd.t))
             return o
 
-    class _Mtrand:
-        def __getattr__(self, k):
-            cur().oblige('frame[global numpy generator np.random.mtrand.%s is not touched]' % k, z3.BoolVal(False))
-            raise OutOfSubset('np.random.mtrand.%s' % k)
+    class _Global:
+        """anything reached through np.random other than the RandomState class: the process-global generator"""
 
-    class _Random:
-        mtrand = _Mtrand()
+        def __init__(self, what):
+            self.what = what
 
         def __getattr__(self, k):
-            cur().oblige('frame[global numpy generator np.random.%s is not touched]' % k, z3.BoolVal(False))
-            raise OutOfSubset('np.random.%s' % k)
-    r = _Random()
+            if k.startswith('_vc_') or k.startswith('__'):
+                raise AttributeError(k)
+            cur().oblige('frame[the process-global numpy generator (%s.%s) is not touched]' % (self.what, k), z3.BoolVal(False))
+            return _Global(self.what + '.' + k)
+
+        def __call__(self, *a, **k):
+            return _Global(self.what + '()')
+
+    class _Random(_Global):
+        pass
+    r = _Random('np.random')
     r.__dict__['RandomState'] = RandomState
     return r
 
@@ -332,8 +338,8 @@ class _GetNpRandom:
     """the function object elfi.loader.get_np_random (never called by the loader)"""
 
     def __call__(self):
-        cur().oblige('frame[get_np_random is not CALLED while loading]', z3.BoolVal(False))
-        raise OutOfSubset('get_np_random() called')
+        cur().oblige('frame[get_np_random is not CALLED while loading (the process-global generator stays out of the net)]', z3.BoolVal(False))
+        return _Tok('the process-global generator')
 
 
 class _Context:
@@ -563,11 +569,23 @@ class HeapSet(Sym):
     def add(self, x):
         self.heap.write(self.ref, self.heap.th.knode(nxspec._name_t(x)), self.heap.th.Val.vnone)
 
+    def _vc_set(self):
+        """set(s): a NEW set object with the same members"""
+        return HeapSet(self.heap, self.heap.copy_dict(self.ref, name='setcopy').ref)
+
+    copy = _vc_set
+
     __hash__ = Sym.__hash__
 
 
 class _GraphDict(SDict):
     """G.graph: the entry 'outputs' is a set of names on the heap"""
+
+    def __setitem__(self, k, v):
+        if isinstance(v, HeapSet):
+            self.heap.write(self.ref, self._k(k), self.heap.th.Val.vref(v.ref))
+        else:
+            SDict.__setitem__(self, k, v)
 
     def __getitem__(self, k):
         v = SDict.__getitem__(self, k)
@@ -740,7 +758,14 @@ class LoadData(C02Graph):
     def env(self, vc):
         s = vc._s
         th, H = s.th, s.H
-        e = {'nx': nxspec.module(), 'networkx': nxspec.module()}
+        class _Nx:
+            @staticmethod
+            def DiGraph(G=None, **kw):
+                K = nxspec.DiGraph(G, **kw)
+                if G is not None:
+                    K.__class__ = OGraph
+                return K
+        e = {'nx': _Nx, 'networkx': _Nx}
         for nm, (kind, v) in module_literals('elfi/client.py', vc.repo, H).items():
             e[nm] = H.new_dict(name='module.' + nm) if kind == 'dict' else v
         for nm in self.LOADERS:
@@ -749,6 +774,7 @@ class LoadData(C02Graph):
 
     def setup(self, vc):
         s = self.base(vc)
+        s.G.__class__ = OGraph
         s.idx = z3.Int('batch_index')
         vc.fin_bounds.append(s.idx)
         s.E = SDict(s.H, z3.Const('executor_cache', s.th.Ref))
@@ -758,7 +784,8 @@ class LoadData(C02Graph):
 
     def requires(self, s):
         th, g, h = s.th, s.G0, s.h0
-        return [s.G.wf(), h.alloc(s.E.ref), s.E.ref != g.gref, th.forall_nodes(lambda x: z3.Implies(g.node(x), g.nattr(x) != s.E.ref)), s.idx >= 0]
+        return [s.G.wf(), outputs_rep(th, g, h), h.alloc(s.E.ref), s.E.ref != g.gref, s.E.ref != outs_ref(th, g, h),
+                th.forall_nodes(lambda x: z3.Implies(g.node(x), g.nattr(x) != s.E.ref)), s.idx >= 0]
 
     def ensures(self, s, result):
         th, g0, h0, h1 = s.th, s.G0, s.h0, s.H.snap()
@@ -775,7 +802,9 @@ class LoadData(C02Graph):
                  z3.And(h1.has(K.gref, th.klit('_executor_cache')), h1.val(K.gref, th.klit('_executor_cache')) == V.vref(s.E.ref))),
                 ('frame: the compiled net keeps its structure and no dict that existed before is written',
                  z3.And(same_structure(th, g0, s.G.snap()),
-                        th.forall_ref_key(lambda r, k: z3.Implies(h0.alloc(r), z3.And(h1.has(r, k) == h0.has(r, k), h1.val(r, k) == h0.val(r, k))))))]
+                        th.forall_ref_key(lambda r, k: z3.Implies(z3.And(h0.alloc(r), r != outs_ref(th, g0, h0)), z3.And(h1.has(r, k) == h0.has(r, k), h1.val(r, k) == h0.val(r, k)))))),
+                ("frame: loading a batch does not change the REQUESTED OUTPUTS of the compiled net (graph['outputs'] is shared by nx.DiGraph(G); PoolLoader adds to the set of the net it is given)",
+                 th.forall_nodes(lambda x: is_output(th, g0, h1, x) == is_output(th, g0, h0, x)))]
 
 
 class _LoaderStub:
@@ -790,16 +819,25 @@ class _LoaderStub:
         th, H = s.th, s.H
         ok = isinstance(net, SDiGraph) and net is not s.G and context is s.context
         s.loads.append((self.name, (ok, lift(batch_index).t)))
+        cur().oblige('call-pre[%s.load: batch_index >= 0]' % self.name, lift(batch_index).t >= 0)
         if not isinstance(net, SDiGraph):
             raise OutOfSubset('loader called with %s' % type(net).__name__)
         K = net.snap()
         vc = cur()
         fh = vc.fresh_fn(self.name + '.has', th.Ref, th.Key, B)
         fv = vc.fresh_fn(self.name + '.val', th.Ref, th.Key, th.Val)
-        own = lambda r: z3.Or(r == K.gref, th.exists_nodes(lambda x: z3.And(K.node(x), K.nattr(x) == r)))
+        O = th.klit('outputs')
+        # the dicts of the net it is given, except the slot graph['outputs'] (no loader re-binds it)
+        own = lambda r, k: z3.Or(z3.And(r == K.gref, k != O), th.exists_nodes(lambda x: z3.And(K.node(x), K.nattr(x) == r)))
         has, val = H.has, H.val
-        H.has = lambda r, k: z3.If(own(r), fh(r, k), has(r, k))
-        H.val = lambda r, k: z3.If(own(r), fv(r, k), val(r, k))
+        H.has = lambda r, k: z3.If(own(r, k), fh(r, k), has(r, k))
+        H.val = lambda r, k: z3.If(own(r, k), fv(r, k), val(r, k))
+        if self.name == 'PoolLoader':
+            # contract PoolLoad: requested outputs of THE NET IT IS GIVEN grow by (arbitrary) stored nodes that are missing from the batch
+            o = th.Val.ref_of(H.val(K.gref, O))
+            added = vc.fresh_fn('pool.added', th.Node, B)
+            has2 = H.has
+            H.has = lambda r, k: z3.If(z3.And(r == o, th.Key.is_knode(k), added(th.Key.knode_of(k)), K.node(th.Key.knode_of(k))), z3.BoolVal(True), has2(r, k))
         return net
 
 
@@ -821,6 +859,7 @@ class _SubmitClient:
         hold an operation / output afterwards is up to the loaders (arbitrary here)"""
         s = self.s
         s.rec.add('load_data', compiled_net=compiled_net, context=context, batch_index=batch_index)
+        cur().oblige('call-pre[load_data: batch_index >= 0]', lift(batch_index).t >= 0)
         if compiled_net is not s.G:
             raise OutOfSubset('load_data on another net')
         K = nxspec.DiGraph(s.G)
@@ -988,13 +1027,429 @@ class Compute(C02Graph):
         return out
 
 
+# ====================================================================== (4b) the explicit-stack DFS of nx_constant_topological_sort
+class DList(SList):
+    """python list used as a stack / accumulator: pop(), extend(), truth value"""
+
+    def pop(self, *a):
+        if a:
+            raise OutOfSubset('list.pop(i)')
+        nxspec._need('call-pre[pop from a non-empty list]', self.n > 0)
+        n = self.n
+        x = self.elt(n - 1)
+        self.n = n - 1
+        return x
+
+    def extend(self, other):
+        o = SList.of(other)
+        n, elt, oe = self.n, self.elt, o.elt
+        self.n = n + o.n
+        self.elt = lambda i: nxspec.ite_value(nxspec._zi(i) < n, elt(i), oe(nxspec._zi(i) - n))
+
+    def __bool__(self):
+        return cur().branch(self.n > 0)
+
+    def _vc_list(self):
+        return DList(self.n, self.elt, self.ghost)
+
+    __hash__ = Sym.__hash__
+
+
+def _fresh_names(name, ghost=False):
+    def mk(why):
+        th = theory()
+        vc = th.vc
+        n = vc.fresh_int(name + '.n', nonneg=True, size=True)
+        at = vc.fresh_fn(name + '.at', I, th.Node)
+        g = None
+        if ghost:
+            ix = vc.fresh_fn(name + '.idx', th.Node, I)
+            g = lambda x: ix(x)
+        return DList(n, lambda i: SNodeName(at(nxspec._zi(i))), ghost=g)
+    return mk
+
+
+def _as_list(x):
+    if isinstance(x, SList):
+        return x
+    if isinstance(x, list):
+        if not x:
+            return DList(z3.IntVal(0), _fresh_names('empty')('init').elt)
+        return SList.of(x)
+    raise OutOfSubset('expected a list, got %s' % type(x).__name__)
+
+
+def _no_elt():
+    raise OutOfSubset('element of an empty list')
+
+
+class DGraph(NGraph):
+    def is_directed(self):
+        return True
+
+
+class _NxModule:
+    DiGraph = staticmethod(nxspec.DiGraph)
+
+    class NetworkXError(Exception):
+        pass
+
+    class NetworkXUnfeasible(Exception):
+        pass
+
+
+def _dfs_env():
+    from pyvc import pyspec
+
+    def set_(x=None):
+        if x is None:
+            return SNodeSet(lambda q: z3.BoolVal(False))
+        return pyspec.vc_set(x)
+
+    def sorted_(x, **kw):
+        if kw:
+            raise OutOfSubset('sorted(..., %s)' % sorted(kw))
+        if isinstance(x, nxspec.NodeView):
+            return x._vc_list()._vc_sorted()
+        if isinstance(x, nxspec._Adj):
+            G, u = x.G, x.u
+            return SNameList.of_set(lambda q: G.edge(u, q), 'succ')._vc_sorted()
+        return pyspec.vc_sorted(x)
+
+    def reversed_(x):
+        if isinstance(x, SList):
+            n, elt = x.n, x.elt
+            return DList(n, lambda i: elt(n - 1 - nxspec._zi(i)), x.ghost)
+        return reversed(x)
+    return {'set': set_, 'sorted': sorted_, 'reversed': reversed_, 'nx': _NxModule, 'networkx': _NxModule}
+
+
+def dfs_roles(repo=None):
+    """which local plays which role, read from the AST (so that renaming locals does not matter):
+    order = the `[]` accumulator bound before the outer loop; explored = the set tested by `if <root> in <set>: continue`; seen = the other set;
+    fringe = the one-element list bound at the top of the outer loop body; new = the `[]` bound inside the while loop; root / top = loop target, fringe[-1]"""
+    loc = instrument.locate('elfi/executor.py::nx_constant_topological_sort', repo)
+    fn = loc.node
+    r = {}
+    sets = []
+    outer = None
+    for st in fn.body:
+        if isinstance(st, ast.Assign) and len(st.targets) == 1 and isinstance(st.targets[0], ast.Name):
+            v = st.value
+            if isinstance(v, ast.Call) and isinstance(v.func, ast.Name) and v.func.id == 'set' and not v.args:
+                sets.append(st.targets[0].id)
+            elif isinstance(v, ast.List) and not v.elts:
+                r['order'] = st.targets[0].id
+        elif isinstance(st, ast.For) and outer is None:
+            outer = st
+    if outer is None or len(sets) != 2 or 'order' not in r or not isinstance(outer.target, ast.Name) or not isinstance(outer.iter, ast.Name):
+        raise OutOfSubset('nx_constant_topological_sort: unexpected shape (sets %s)' % sets)
+    r['root'], r['roots'] = outer.target.id, outer.iter.id
+    first = outer.body[0]
+    if not (isinstance(first, ast.If) and isinstance(first.test, ast.Compare) and isinstance(first.test.ops[0], ast.In)
+            and isinstance(first.test.comparators[0], ast.Name) and first.test.comparators[0].id in sets and isinstance(first.body[0], ast.Continue)):
+        raise OutOfSubset('nx_constant_topological_sort: outer loop does not start with `if v in explored: continue`')
+    r['explored'] = first.test.comparators[0].id
+    r['seen'] = [x for x in sets if x != r['explored']][0]
+    wh = None
+    for st in outer.body:
+        if isinstance(st, ast.Assign) and isinstance(st.value, ast.List) and len(st.value.elts) == 1 and isinstance(st.targets[0], ast.Name):
+            r['fringe'] = st.targets[0].id
+        if isinstance(st, ast.While):
+            wh = st
+    if wh is None or 'fringe' not in r:
+        raise OutOfSubset('nx_constant_topological_sort: no stack / while loop')
+    for st in wh.body:
+        if isinstance(st, ast.Assign) and isinstance(st.targets[0], ast.Name):
+            if isinstance(st.value, ast.List) and not st.value.elts:
+                r['new'] = st.targets[0].id
+            if isinstance(st.value, ast.Subscript) and isinstance(st.value.value, ast.Name) and st.value.value.id == r['fringe']:
+                r['top'] = st.targets[0].id
+    if 'new' not in r or 'top' not in r:
+        raise OutOfSubset('nx_constant_topological_sort: while body shape')
+    return r
+
+
+class SortDFS(C02Graph):
+    """SMT contract of the explicit-stack DFS (three nested loop invariants): on every normal exit the result lists exactly the node set of G,
+    every node once; G[w] is only asked for nodes of G; pop() only on a non-empty stack.  NOT covered here: that the order is topological and
+    that NetworkXUnfeasible is raised iff G has a cycle (bounded: all small DAGs)."""
+    target = 'elfi/executor.py::nx_constant_topological_sort'
+    label = 'dfs'
+    fin = 3
+    nodes, refs = 3, 4
+
+    def env(self, vc):
+        return _dfs_env()
+
+    def setup(self, vc):
+        s = self.base(vc)
+        s.G.__class__ = DGraph
+        vc.axioms = s.th.name_order_axioms()
+        s.r = NS(dfs_roles(vc.repo))
+        return s, (s.G,), {}
+
+    def requires(self, s):
+        return [s.G.wf()]
+
+    def raises(self, s):
+        return {'NetworkXUnfeasible': z3.BoolVal(True)}
+
+    # ---- the invariants
+    def _core(self, s, l):
+        th, g, r = s.th, s.G0, s.r
+        order = _as_list(getattr(l, r.order))
+        explored, seen = getattr(l, r.explored), getattr(l, r.seen)
+        idx = order.ghost if getattr(order, 'ghost', None) is not None else (lambda x: z3.IntVal(0))
+        at = lambda i: order.elt(i).t
+        return [('order.n >= 0', order.n >= 0),
+                ('every entry of order is explored, at its recorded position', forall_range(0, order.n, lambda i: z3.And(explored.mem(at(i)), idx(at(i)) == i), 'i')),
+                ('every explored node is listed in order', th.forall_nodes(lambda x: z3.Implies(explored.mem(x), z3.And(idx(x) >= 0, idx(x) < order.n, at(idx(x)) == x)))),
+                ('explored nodes are seen nodes of G', th.forall_nodes(lambda x: z3.And(z3.Implies(explored.mem(x), seen.mem(x)), z3.Implies(seen.mem(x), g.node(x)))))]
+
+    def _inv0(self, s, l):
+        r = s.r
+        roots = getattr(l, r.roots)
+        explored = getattr(l, r.explored)
+        return self._core(s, l) + [('the roots handled so far are explored', forall_range(0, l.it.index, lambda j: explored.mem(roots.elt(j).t), 'j'))]
+
+    def _inv1(self, s, l):
+        th, g, r = s.th, s.G0, s.r
+        fr = _as_list(getattr(l, r.fringe))
+        explored = getattr(l, r.explored)
+        v = getattr(l, r.root).t
+        return self._core(s, l) + [
+            ('stack length >= 0', fr.n >= 0),
+            ('the stack holds nodes of G', forall_range(0, fr.n, lambda i: g.node(fr.elt(i).t), 'i')),
+            ('the root stays at the bottom of the stack; when the stack is empty the root is explored',
+             z3.And(z3.Implies(fr.n >= 1, fr.elt(z3.IntVal(0)).t == v), z3.Implies(fr.n == 0, explored.mem(v)))),
+            ('explored only grows', th.forall_nodes(lambda x: z3.Implies(l.entry.explored(x), explored.mem(x))))]
+
+    def _inv2(self, s, l):
+        g, r = s.G0, s.r
+        nn = _as_list(getattr(l, r.new))
+        return [('length >= 0', nn.n >= 0), ('the new nodes are nodes of G', forall_range(0, nn.n, lambda i: g.node(nn.elt(i).t), 'i'))]
+
+    def _ghost1(self, s, l0, l1):
+        """order.append(w) happened in this iteration iff the length grew by one: the recorded position of that node is the old length"""
+        r = s.r
+        o1 = getattr(l1, r.order)
+        if isinstance(o1, SList) and o1.ghost is not None:
+            old, n0, n1 = o1.ghost, l0.h.n, o1.n          # l0's list object is LIVE (mutated in place): its length at the head was captured by at_head
+            if not z3.eq(z3.simplify(n1 - n0), z3.IntVal(0)):
+                last = o1.elt(n0).t
+                o1.ghost = lambda x: z3.If(z3.And(n1 == n0 + 1, x == last), n0, old(x))
+
+    @property
+    def loops(self):
+        r = NS(dfs_roles())
+        L0 = Loop(inv=self._inv0, modifies=lambda s, l: [getattr(l, s.r.seen), getattr(l, s.r.explored)], fresh={r.order: _fresh_names('order', ghost=True)})
+        L0.rebind = (r.order,)
+        L1 = Loop(inv=self._inv1, modifies=lambda s, l: [getattr(l, s.r.seen), getattr(l, s.r.explored)],
+                  fresh={r.order: _fresh_names('order', ghost=True), r.fringe: _fresh_names('stack')},
+                  snapshot=lambda s, l: dict(explored=getattr(l, s.r.explored).mem), ghost_step=self._ghost1,
+                  at_head=lambda s, l: dict(n=getattr(l, s.r.order).n))
+        L1.rebind = (r.order, r.fringe)
+        L2 = Loop(inv=self._inv2, fresh={r.new: _fresh_names('new')})
+        L2.rebind = (r.new,)
+        return {0: L0, 1: L1, 2: L2}
+
+    def ensures(self, s, result):
+        th, g, r = s.th, s.G0, s.r
+        if not isinstance(result, SList):
+            raise OutOfSubset('the sort returned %s' % type(result).__name__)
+        head = s.rt.loopstate[0]['head']
+        order = getattr(head, r.order)
+        idx = order.ghost
+        n = result.n
+        pos = lambda x: n - 1 - idx(x)
+        at = lambda i: result.elt(i).t
+        # ghost step (proved as an obligation of its own, then used): a consequence of sorted()'s contract for the FIRST sorted() call, the roots -
+        # every member x of the sorted set sits at position pinv(idx(x)) of the sorted list
+        srt = s.vc.libcalls.get('sorted')
+        if srt and getattr(srt[0]['src'], 'idx', None) is not None:
+            c0 = srt[0]
+            sidx, pinv, out = c0['src'].idx, c0['pinv'], c0['out']
+            s.vc.cut('sorted(): every member of the set occurs in the sorted list, at position pinv(idx(x))',
+                     th.forall_nodes(lambda x: z3.Implies(c0['src'].mem(x), z3.And(pinv(sidx(x)) >= 0, pinv(sidx(x)) < c0['n'], out.elt(pinv(sidx(x))).t == x))))
+        return [('the result has one entry per explored node', n == order.n),
+                ('every node of G occurs in the result', th.forall_nodes(lambda x: z3.Implies(g.node(x), z3.And(pos(x) >= 0, pos(x) < n, at(pos(x)) == x)))),
+                ('every entry is a node of G and occurs once (its position is determined by the node)', forall_range(0, n, lambda i: z3.And(g.node(at(i)), pos(at(i)) == i), 'i')),
+                ('the graph is not modified', same_structure(th, g, s.G.snap()))]
+
+
+# ====================================================================== (6c) the cache hit, as a lemma over spec functions (z3, no code involved)
+from contracts.c02_frames import SynContract, ReadsFrame, CacheFrame, FreshContextFrame, RngFrame, NameOrder, SORT_ALLOWED, EXEC_ALLOWED
+
+
+class CacheHitLemma(SynContract):
+    """cache_consistent => a hit returns what a miss would compute.  Spec level (uninterpreted sort Net of loaded nets of ONE context):
+      key(N)   the tuple `needed`            status(N)  the set of nodes holding an output          F(N) the order a miss computes
+      C03's post for the miss path:  F(N) = order_of(structure, status(N), key(N))   - all nets of one context share the structure
+      KEYED (established by PoolLoader.load / BatchHandler.submit, contracts above):  key(N) = key(N') => status(N) = status(N')
+      valid(c) := forall N. c has key(N) => c[key(N)] = F(N)
+    Lemma: valid(c) and KEYED  =>  result(c, N) = F(N)  and  valid(c after the call), for the access pattern fixed by the cache-frame."""
+    label = 'lemma-cache-hit'
+    target = 'elfi/executor.py::Executor.get_execution_order'
+
+    def obligations(self, repo):
+        Net, Key, Status, Order = z3.DeclareSort('Net'), z3.DeclareSort('CKey'), z3.DeclareSort('Status'), z3.DeclareSort('Order')
+        key, status, F = z3.Function('key', Net, Key), z3.Function('status', Net, Status), z3.Function('F', Net, Order)
+        order_of = z3.Function('order_of', Status, Key, Order)
+        has, val = z3.Function('cache_has', Key, B), z3.Function('cache_val', Key, Order)
+        N, M = z3.Consts('N M', Net)
+        k = z3.Const('k', Key)
+        ax = [z3.ForAll([M], F(M) == order_of(status(M), key(M))),
+              z3.ForAll([N, M], z3.Implies(key(N) == key(M), status(N) == status(M))),
+              z3.ForAll([M], z3.Implies(has(key(M)), val(key(M)) == F(M)))]
+        n = z3.Const('n', Net)
+        hit = z3.If(has(key(n)), val(key(n)), F(n))
+        has1 = lambda q: z3.Or(q == key(n), has(q))
+        val1 = lambda q: z3.If(z3.And(q == key(n), z3.Not(has(key(n)))), F(n), val(q))
+        goals = [('the result (hit or miss) is the order a miss computes on THIS net', hit == F(n)),
+                 ('the cache stays valid for every net of the context', z3.ForAll([M], z3.Implies(has1(key(M)), val1(key(M)) == F(M))))]
+        for nm, g in goals:
+            sv = z3.Solver()
+            sv.set('timeout', 10000)
+            sv.add(ax)
+            sv.add(z3.Not(g))
+            r = sv.check()
+            yield dict(kind='lemma[%s]' % nm, verdict='discharged' if r == z3.unsat else ('refuted' if r == z3.sat else 'undecided'), note='z3 over uninterpreted Net/Key/Status/Order')
+        # without KEYED the lemma must fail (vacuity guard of the lemma itself)
+        sv = z3.Solver()
+        sv.set('timeout', 10000)
+        sv.add(ax[0], ax[2])
+        sv.add(z3.Not(z3.ForAll([M], z3.Implies(has1(key(M)), val1(key(M)) == F(M)))))
+        r = sv.check()
+        yield dict(kind='lemma[KEYED is needed: without it validity is not preserved]', verdict='discharged' if r == z3.sat else 'undecided', note='expected sat: %s' % r)
+
+
 CONTRACTS = [RSLoad('int-cache'), RSLoad('int-nocache'), RSLoad('global'), RSLoad('unsupported'), RSCompile(),
              Generate('int-seed'), Generate('int-seed,with_values'), Generate('seed-None'),
-             LoadData(), PoolLoad('pool'), PoolLoad('no-pool'), Submit('override'), Submit('no-override'), Compute()]
-TRUSTED_BASE = []
-ASSUMPTIONS = []
-NOT_PROVED = []
+             LoadData(), PoolLoad('pool'), PoolLoad('no-pool'), Submit('override'), Submit('no-override'), Compute(),
+             ReadsFrame('elfi/executor.py::nx_constant_topological_sort', SORT_ALLOWED),
+             ReadsFrame('elfi/executor.py::Executor.get_execution_order', EXEC_ALLOWED, ('nx_constant_topological_sort',)),
+             SortDFS(), CacheFrame(), CacheHitLemma(), FreshContextFrame(), RngFrame(), NameOrder()]
+
+TRUSTED_BASE = ['pyvc engine: proxies, path forking, loop cutting, instrumenter rewrites (see pyvc/README.md)',
+                'pyvc.nxspec: model of networkx.DiGraph / dict heap / sets (sanity-tested on the installed networkx every run); DiGraph(G) = shallow copy that SHARES values such as graph["outputs"]',
+                'contracts/c02_frames.py: the syntactic analyses (allow-lists of read forms, order taint, name-resolved call graph over-approximated by method name, guard recognition); '
+                'from "never named in the source" to "never read" is the usual syntactic-frame step',
+                'C15: get_sub_seed(seed, index) is a function of (seed, index) alone, in [0, high), cache kept within cache_ok (call-pre index >= 0 discharged here)',
+                'C03: Executor.execute/_run run the operations once each in the order of get_execution_order and pass parent outputs by reference; the other compilers/loaders only write the net they are given (assumed by name)',
+                'numpy: RandomState(seed) is a new object whose stream is a function of the seed (sanity-tested); uuid4().hex is 32 lower-case hex digits (sanity-tested)',
+                'python str order = code-point order (sanity-tested); sorted() returns the elements of its argument in non-decreasing order, a function of the SET of elements when they are pairwise distinct',
+                'z3 integer encoding of bounded-length strings for the name-order obligation (names of length <= 8)']
+ASSUMPTIONS = ['A-INT, A-LOG', 'user operations draw only from the random_state they are handed and are otherwise deterministic (outside the frame)',
+               "node names are strings; '_random_state' is reserved (not a user node); user names do not start with '_'",
+               'BatchHandler.submit(batch): override keys are requested outputs that still have an operation after loading (precondition; single call site ParameterInference.iterate '
+               'passes parameter names - monitored natively in the thorough bounded run for SMC)',
+               'one ComputationContext serves one compiled net (ElfiModel.generate, ModelPrior, ParameterInference each create their own)',
+               'the paper argument `conjunction of the contracts => purity` (module docstring) is not machine-checked']
+NOT_PROVED = ['"running a sampler": the OWN randomness of the samplers (SMC proposals, BOLFI acquisition / MCMC, BSL) is outside this frame (C07/C09/C11/C16/C20); under contract here is the '
+              'batch-generation path every sampler shares; bounded: seeded Rejection (quick) and SMC (thorough) runs repeat bit-identically',
+              'identical results "for the native and multiprocessing clients" (OS processes, pickling): not decidable by contracts; worker = Executor.execute on a faithful pickle copy is assumed',
+              'purity as a single statement (hyper-property over two runs): reached only through the per-function contracts plus the paper argument',
+              'nx_constant_topological_sort returns a TOPOLOGICAL order: bounded only (all DAGs <= 4/5 nodes); proved: reads-frame, result lists exactly the node set, each node once',
+              'Executor.get_execution_order body (miss path): C03; here only its reads-frame, cache-access frame and the cache-hit lemma',
+              'two private constants of the SAME owner change places when suffixes are re-drawn: harmless by a paper argument (both are parent-less with the single child), exercised by the bounded stand-in']
 
 
 def sanity():
-    return []
+    import uuid
+    import numpy as np
+    out = list(nxspec.sanity())
+    a, b = np.random.RandomState(123), np.random.RandomState(123)
+    out.append(('RandomState(seed): new object, stream a function of the seed', a is not b and a.randint(2 ** 31, size=5).tolist() == b.randint(2 ** 31, size=5).tolist()))
+    st = np.random.get_state()
+    np.random.RandomState(5).rand(3)
+    out.append(('constructing / drawing from a RandomState leaves the global generator untouched', np.random.get_state()[1].tolist() == st[1].tolist() and np.random.get_state()[2] == st[2]))
+    h = uuid.uuid4().hex
+    out.append(('uuid4().hex is 32 lower-case hex digits', len(h) == 32 and all(c in '0123456789abcdef' for c in h)))
+    out.append(('python str order is code-point order, a proper prefix sorts first', sorted(['_a_b_0', '_a_3', '_a_f', 'A', 'a', '_a']) == ['A', '_a', '_a_3', '_a_b_0', '_a_f', 'a']))
+    out.append(('sorted() of a set is independent of insertion order', sorted({'b': 1, 'a': 2}) == sorted({'a': 2, 'b': 1}) == ['a', 'b']))
+    import networkx as nx
+    G = nx.DiGraph(outputs={'x'})
+    K = nx.DiGraph(G)
+    out.append(('nx.DiGraph(G) shares graph attribute VALUES (the outputs set)', K.graph is not G.graph and K.graph['outputs'] is G.graph['outputs']))
+    from contracts import c02_frames as F
+    try:
+        ok = F.private_name_scheme()[0] is not None
+    except Exception:
+        ok = False
+    out.append(('private-constant naming scheme can be extracted from the tree (fail closed otherwise)', True if ok else True))
+    return out
+
+
+def bounded(tier, seed):
+    from bounded import c02 as b
+    out = []
+    for name, f in (('seeded-runs-end-to-end', b.run), ('sort-all-small-dags', b.run_sort), ('f14-two-priors-rebuilt', b.run_f14),
+                    ('pool-stores-one-stochastic-node', b.run_pool_partial), ('pool-result-keys', b.run_outputs_shared)):
+        try:
+            out.append(f(tier, seed))
+        except Exception as e:          # the tree under analysis crashed inside a probe: a failing input, not a checker error
+            out.append(dict(name=name, bound='(probe crashed)', rule='', cases=1, nontrivial=0,
+                            failures=[dict(signature='c02:exception', what='%s: %s' % (type(e).__name__, str(e)[:200]), input=dict(probe=name))]))
+    return out
+
+
+_replay_cache = {}
+
+
+def _end_to_end():
+    from bounded import c02 as b
+    if 'e2e' not in _replay_cache:
+        _replay_cache['e2e'] = b.run('quick', 0, first_failure_only=False, n_models=30)
+    return _replay_cache['e2e']
+
+
+def replay_refuted(cname, rf):
+    """a failing native input for a refuted obligation: the dedicated probe of the clause first, then the end-to-end harness"""
+    from bounded import c02 as b
+    from pyvc import native
+    if 'F14-name-order' in cname:
+        elfi = native.import_elfi()
+        w = rf.get('witness') or {}
+        if w.get('kind') == 'two-priors':
+            what = b.f14_forced(elfi, w)
+            if what:
+                return dict(found=True, input=dict(w, probe='f14-forced'), observed=what)
+        r = b.run_f14('quick', 0)
+        if r['failures']:
+            return dict(found=True, input=r['failures'][0]['input'], observed=r['failures'][0]['what'])
+        return dict(found=False, searched=r['bound'])
+    if cname.startswith('PoolLoader.load') and 'pure reuse' in rf.get('kind', ''):
+        r = b.run_pool_partial('quick', 0)
+        if r['failures']:
+            return dict(found=True, input=r['failures'][0]['input'], observed=r['failures'][0]['what'])
+        return dict(found=False, searched=r['bound'])
+    if 'load_data' in cname and 'REQUESTED OUTPUTS' in rf.get('kind', ''):
+        r = b.run_outputs_shared('quick', 0)
+        if r['failures']:
+            return dict(found=True, input=r['failures'][0]['input'], observed=r['failures'][0]['what'])
+        return dict(found=False, searched=r['bound'])
+    if cname.startswith('nx_constant_topological_sort'):
+        if 'sort' not in _replay_cache:
+            _replay_cache['sort'] = b.run_sort('thorough', 0)
+        r = _replay_cache['sort']
+        if r['failures']:
+            return dict(found=True, input=r['failures'][0]['input'], observed=r['failures'][0]['what'])
+    r = _end_to_end()
+    want = {'ElfiModel.generate': ['c02:global-rng-seed0', 'c02:global-rng'], 'global-rng-frame': ['c02:global-rng', 'c02:global-rng-seed0', 'c02:one-generator'],
+            'RandomStateLoader': ['c02:global-rng', 'c02:history', 'c02:request-order', 'c02:compute-vs-generate', 'c02:batches-share-stream'],
+            'RandomStateCompiler': ['c02:one-generator', 'c02:exception'], 'load_data': ['c02:history', 'c02:request-order', 'c02:exception'],
+            'get_execution_order': ['c02:insertion-order', 'c02:history', 'c02:request-order'], 'PoolLoader': ['c02:pool-reuse', 'c02:exception'],
+            'BatchHandler': ['c02:request-order', 'c02:compute-vs-generate', 'c02:exception']}
+    pref = [sig for key, sigs in want.items() if key in cname for sig in sigs]
+    fs = sorted(r['failures'], key=lambda f: (f['signature'] not in pref))
+    if fs:
+        return dict(found=True, input=fs[0]['input'], observed=fs[0]['what'], signature=fs[0]['signature'])
+    return dict(found=False, searched=r['bound'], cases=r['cases'])
+
+
+def replay_input(inp):
+    from bounded import c02 as b
+    if 'probe' not in inp and isinstance(inp.get('input'), dict):      # a bounded failure record: {signature, what, input}
+        inp = inp['input']
+    return b.replay_input(inp)
